@@ -193,7 +193,10 @@ Definition report_effects (o : oracle) (root : string) (s : sfacts) (embedded : 
   match out with
   | Some (d, _) => if (String.eqb d "" || isdir st d)%bool then ws else []   (* no makedirs with --output *)
   | None => let od := root ++ sf_output_dir s in
-            app (if isdir st od then [] else [EMkdir OOutDir od]) ws
+            (* os.makedirs(od, exist_ok=True) raises when something that is not a directory (a file, a dangling
+               symlink) sits at od: the command dies before any report file is opened *)
+            if fexists st od then []
+            else app (if isdir st od then [] else [EMkdir OOutDir od]) ws
   end.
 
 (* what `up` learns before it writes anything: budget prefix and settings facts (None: it exits first) *)
@@ -242,14 +245,26 @@ Definition starters (o : oracle) (root : string) : list (path * string) :=
   [(root ++ P_SETTINGS, starter_settings o); (root ++ P_RULES, starter_merchants o);
    (root ++ P_VIEWS, starter_views o); (root ++ P_GIT, starter_gitignore o)].
 
+(* init_config: os.makedirs(config), (data), (output) in this order; the first one that hits a non-directory
+   (a file, a dangling symlink) raises and init dies there, after the migration but before any starter file *)
+Fixpoint mkdirs_until (st : state) (ds : list path) : list effect :=
+  match ds with
+  | [] => []
+  | d :: r => if fexists st d then []
+              else app (if isdir st d then [] else [EMkdir OInitDirs d]) (mkdirs_until st r)
+  end.
+Definition init_blocked (st : state) (rd : option string) : bool := existsb (fexists st) (init_dirs rd).
+
 Definition init_stages (o : oracle) (t : target) (st : state) : list stage :=
   let rd := init_rootdir t st in
   let root := prefix_of rd in
   [ (fun s1 => if init_migrates s1 root then mig_effects o root s1 else []);
-    (fun s2 => map (EMkdir OInitDirs) (filter (fun d => negb (isdir s2 d)) (init_dirs rd)));
-    (fun s3 => map (fun pc => EWrite OInitStarter (fst pc) (snd pc))
+    (fun s2 => mkdirs_until s2 (init_dirs rd));
+    (fun s3 => if init_blocked s3 rd then [] else
+               map (fun pc => EWrite OInitStarter (fst pc) (snd pc))
                    (filter (fun pc => negb (fexists s3 (fst pc))) (starters o root)));
-    (fun s4 => match fget s4 (root ++ P_SETTINGS), fget s4 (root ++ P_VIEWS) with
+    (fun s4 => if init_blocked s4 rd then [] else
+               match fget s4 (root ++ P_SETTINGS), fget s4 (root ++ P_VIEWS) with
                | Some sc, Some _ => if contains "views_file:" sc then []
                                     else [EAppend OInitAppend (root ++ P_SETTINGS) VIEWS_SUFFIX]
                | _, _ => []
